@@ -424,7 +424,7 @@ End pg.
    threshold and main disappeared from the trace. *)
 Definition leak_cfg : cfg :=
   mkcfg [(1, {| t_filter := None; t_depth := None; t_time := Some 1000; t_size := None;
-                t_trace_on := false; t_trace_off := false; t_trace := false; t_caller := false; t_loc := None |})]
+                t_trace_on := false; t_trace_off := false; t_trace := false; t_caller := false; t_loc := None; t_finish := false |})]
         false false 1 0 1024 [] PG.
 Definition leak_events : list ev := [Enter 0 100; Enter 1 110; Leave 120; Leave 200].
 Definition cyg_of (c : cfg) : cfg :=
@@ -445,7 +445,7 @@ Proof. vm_compute. repeat split; congruence. Qed.
 (* `-T b@depth=0`: a later sibling c() in the same parent disappeared *)
 Definition leak2_cfg : cfg :=
   mkcfg [(1, {| t_filter := None; t_depth := Some 0; t_time := None; t_size := None;
-                t_trace_on := false; t_trace_off := false; t_trace := false; t_caller := false; t_loc := None |})]
+                t_trace_on := false; t_trace_off := false; t_trace := false; t_caller := false; t_loc := None; t_finish := false |})]
         false false 1024 0 1024 [] PG.
 Lemma pg_leak2_legacy_refuted :
   let es := [Enter 0 100; Enter 1 110; Leave 120; Enter 2 130; Leave 140; Leave 200] in
